@@ -34,9 +34,11 @@ pub fn strategy() -> BoxedStrategy<Scenario> {
 
 /// uploads whose window holds more than 1024 blocks (one flush writes thousands of pieces)
 pub fn big_window_strategy() -> BoxedStrategy<Scenario> {
-    (prop::sample::select(vec![1025u16, 1100, 2000, 4096, 65535]), 1030usize..2400, 0usize..8, any::<u64>(), any::<bool>())
-        .prop_map(|(ws, blocks, rem, seed, clean)| {
-            let mut sc = Scenario::lossless(Role::Receiver, 8, ws, blocks * 8 + rem, seed);
+    (prop::sample::select(vec![(8usize, 1025u16), (8, 1100), (8, 2000), (8, 4096), (8, 65535), (65464, 20), (1428, 800), (10000, 120)]), 1030usize..2400, 0usize..8, any::<u64>(), any::<bool>())
+        .prop_map(|((blk, ws), blocks, rem, seed, clean)| {
+            // small blocks: more than 1024 pieces per flush; big blocks: more than 1 MiB per flush
+            let blocks = if blk > 8 { ws as usize * 2 + 5 } else { blocks };
+            let mut sc = Scenario::lossless(Role::Receiver, blk, ws, blocks * blk + rem, seed);
             sc.clean = clean;
             sc
         })
@@ -59,7 +61,8 @@ pub fn judge(dir: &Path, sc: &Scenario, obs: &mut Obs) -> Judge {
 fn judge_plain(dir: &Path, sc: &Scenario, obs: &mut Obs) -> Judge {
     let (_r, _findings, fa) = run_and_judge(dir, sc, obs, &["R1", "R2", "R5"])?;
     obs.class_if(sc.ws > 1024 && fa.accepted_blocks > 1024, "window-above-1024-blocks");
-    obs.nontrivial = fa.accepted_blocks >= 2 && (fa.data_dups_delivered + fa.data_gaps_delivered + fa.noise > 0 || sc.ws > 1024);
+    obs.class_if(sc.ws as usize * sc.blk > (1 << 20), "window-above-1MiB");
+    obs.nontrivial = fa.accepted_blocks >= 2 && (fa.data_dups_delivered + fa.data_gaps_delivered + fa.noise > 0 || sc.ws > 1024 || sc.ws as usize * sc.blk > (1 << 20));
     Ok(())
 }
 
